@@ -34,6 +34,10 @@ TRUSTED_BASE = [
     'object identities are not re-used while the old object is alive; itertools.count is atomic',
 ]
 ASSUMPTIONS = [
+    'text attribution (prompt_text shows the own stop only, banners, output of debugger commands) is checked by the oracle on '
+    'every prompt; the theorem C06_prompt_text_is_own is true by construction of Ids/Text.v (one buffer per trace); stops in '
+    'library frames of the same trace are printed without a prompt and precede the next prompt text -- only script-file '
+    'locations are used to tell another trace\'s text',
     'a run that dies of the ThreadDoneCallback race (RuntimeError: Set changed size during iteration, property C18) is not '
     'counted for or against this property (reported as runs_lost_to_the_C18_done_callback_race)',
     'partial (liveness half): "a prompt left unanswered never prevents other threads from running" is proved in the model '
@@ -60,6 +64,79 @@ def P(tag):
 
 # ---------------------------------------------------------------- responder with withholding (runs in the worker)
 
+_uid = [0]
+
+
+def _command(pol, t):
+    """next / step, or (at most twice per trace) a debugger command that prints a unique marker."""
+    n = pol.__dict__.setdefault('_echoes', {})
+    if pol.rng.random() < 0.15 and n.get(t, 0) < 2:
+        n[t] = n.get(t, 0) + 1
+        _uid[0] += 1
+        return f"p 'ZZ{_uid[0]}zz'"
+    return pol.rng.choice(getattr(pol, 'cmds', ['next', 'step']))
+
+
+class BarrierPolicy:
+    """Puts several threads into their Pdb prompt at the same time: the first `rounds` stops of the traces 2..n+1 are
+    gated at the put of OnStartCmdloop (Pdb has printed where it stopped, the prompt is not yet written): all wait for
+    each other, then they proceed to the prompt one after the other in a chosen order.  Every prompt is answered."""
+
+    def __init__(self, args):
+        b = args['barrier']
+        self.rng = random.Random(args.get('seed', 0))
+        self.cmds = ['next', 'step']
+        self.n, self.rounds = b['n'], b.get('rounds', 3)
+        traces = list(range(2, 2 + self.n))
+        self.order = {'asc': traces, 'desc': traces[::-1]}.get(b['order']) or self.rng.sample(traces, len(traces))
+        self.barriers = [threading.Barrier(self.n) for _ in range(self.rounds)]
+        self.prompted = {(r, t): threading.Event() for r in range(self.rounds) for t in traces}
+        self.round_of = {t: 0 for t in traces}        # cmdloops seen
+        self.pround = {t: 0 for t in traces}          # prompts seen
+        self.together = 0
+        self.lock = threading.Lock()
+        import nextline.spawned as sp
+        self.q = sp._queue_out
+        self.orig = self.q.put
+        self.q.put = self._gated_put            # instance attribute: the in-process child's queue_out only
+
+    def _gated_put(self, item, *a, **k):
+        self.orig(item, *a, **k)
+        ty, t = type(item).__name__, getattr(item, 'trace_no', None)
+        if t not in self.round_of:
+            return
+        if ty == 'OnStartCmdloop':
+            r = self.round_of[t]
+            self.round_of[t] = r + 1
+            if r >= self.rounds:
+                return
+            try:
+                self.barriers[r].wait(timeout=0.7)
+                with self.lock:
+                    self.together += 1
+            except threading.BrokenBarrierError:
+                return
+            k_ = self.order.index(t)
+            if k_ > 0:
+                self.prompted[(r, self.order[k_ - 1])].wait(timeout=0.7)
+        elif ty == 'OnStartPrompt':
+            # the first prompt of this stop (a printing command prompts again at the same stop)
+            r = self.round_of[t] - 1
+            if 0 <= r < self.rounds:
+                self.prompted[(r, t)].set()
+
+    def on_event(self, ev, put):
+        if ev['type'] == 'OnStartPrompt':
+            put(ev['trace_no'], ev['prompt_no'], _command(self, ev['trace_no']))
+
+    def summary(self):
+        try:
+            del self.q.put
+        except AttributeError:
+            pass
+        return {'windows': [], 'stalls': [], 'still_held': [], 'barrier': {'order': self.order, 'stops_gated_together': self.together}}
+
+
 class Policy:
     def __init__(self, args):
         self.rng = random.Random(args.get('seed', 0))
@@ -81,7 +158,7 @@ class Policy:
 
     def _send(self, t, p):
         self.answered[p] = (t, time.monotonic())
-        self.put(t, p, self.rng.choice(self.cmds))
+        self.put(t, p, _command(self, t))
 
     def on_event(self, ev, put):
         with self.lock:
@@ -208,7 +285,7 @@ class ScenarioPolicy:
                 else:
                     if self.held:
                         self.seen['prompts_meanwhile'] += 1
-                    put(t, p, self.rng.choice(['next', 'step']))
+                    put(t, p, _command(self, t))
 
     def _pump(self):
         while not self.stop:
@@ -229,6 +306,8 @@ class ScenarioPolicy:
 
 
 def make_policy(args):
+    if 'barrier' in args:
+        return BarrierPolicy(args)
     return ScenarioPolicy(args) if 'scenario' in args else Policy(args)
 
 
@@ -381,6 +460,29 @@ def gen_scenario_job(rng):
             'policy': {'kind': 'custom', 'module': 'harness.props.c06', 'func': 'make_policy', 'args': args}}
 
 
+def gen_barrier_job(rng):
+    """n = 2 or 3 threads that stop at the same time, several times (see BarrierPolicy)."""
+    n = rng.choice([2, 2, 3])
+    L = ['import sys, threading', 'from harness.props.c06 import P',
+         f'sys.setswitchinterval({rng.choice([1e-6, 1e-6, 1e-4, 5e-3])})', 'def g(n):', '    return n + 1']
+    units = {}
+    for i in range(n):
+        L.append(f'def w{i}():')
+        body = [f"P('w{i}')"] + [rng.choice([f'a{j} = {j}', f'g({j})']) for j in range(rng.randint(3, 5))] + [f"P('w{i}')"]
+        for b in body:
+            L.append('    ' + b)
+            units[len(L)] = f'w{i}'
+    start = len(L) + 1
+    L += ["P('M')", 'ths = [threading.Thread(target=f) for f in (' + ', '.join(f'w{i}' for i in range(n)) + ',)]',
+          'for t in ths: t.start()', 'for t in ths: t.join()', "P('M')"]
+    for ln in range(start, len(L) + 1):
+        units[ln] = 'M'
+    args = {'seed': rng.randrange(1 << 30), 'barrier': {'n': n, 'rounds': 3, 'order': rng.choice(['asc', 'desc', 'shuffle'])}}
+    return {'src': '\n'.join(L) + '\n', 'form': 'str', 'trace_threads': True, 'trace_modules': False, 'timeout': 20,
+            'units': {str(k): v for k, v in units.items()}, 'nthreads': n, 'ntasks': 0,
+            'policy': {'kind': 'custom', 'module': 'harness.props.c06', 'func': 'make_policy', 'args': args}}
+
+
 def gen_job(rng, max_threads, max_tasks):
     src, units, nth, ntk = gen_program(rng, max_threads, max_tasks)
     args = {'seed': rng.randrange(1 << 30), 'p_victim': rng.choice([0.0, 0.3, 0.6]),
@@ -490,9 +592,72 @@ def build_case(job, res):
     return labels + rest_l, outs + rest_o, problems
 
 
+LOC_RE = re.compile(r'^> (.+)\((\d+)\)([^()\s]+)\(\)', re.M)
+ECHO_RE = re.compile(r"ZZ(\d+)zz")
+
+
+def text_oracle(res):
+    """Attribution of the debugger's own text.  The prompt text of a prompt of trace T shows the stop of T's own frame
+    (`> file(line)func()` with the file and line of the same event) and no other stop, it ends with '(Pdb) ', carries the
+    --Call-- / --Return-- banner exactly when the event is a call / return, and what a debugger command prints (the
+    responder sends `p 'ZZ<k>zz'`) appears in the next prompt text of the trace that executed it and nowhere else."""
+    bad = []
+    events = res.get('events', [])
+    echo_owner = {}        # marker -> (trace, prompt) it was addressed to
+    for t, p, cmd in res.get('sent', []):
+        m = ECHO_RE.search(cmd or '')
+        if m:
+            echo_owner[m.group(0)] = (t, p)
+    closed_by = {}         # prompt -> command
+    fresh = {}             # trace -> True if its next prompt starts a new interaction (previous command resumed)
+    expect_echo = {}       # trace -> marker printed by the command just executed
+    for e in events:
+        ty = e['type']
+        if ty == 'OnEndPrompt':
+            cmd = e['command'] or ''
+            closed_by[e['prompt_no']] = cmd
+            m = ECHO_RE.search(cmd)
+            fresh[e['trace_no']] = m is None
+            expect_echo[e['trace_no']] = m.group(0) if m else None
+        elif ty == 'OnStartPrompt':
+            t, txt = e['trace_no'], e.get('prompt_text') or ''
+            where = f'prompt {e["prompt_no"]} of trace {t} ({e.get("event")} at {e.get("file_name")}:{e.get("line_no")})'
+            if not txt.endswith('(Pdb) '):
+                bad.append(('prompt-text-truncated', f'{where}: prompt text {txt!r} does not end with the prompt'))
+            locs = [(m.group(1), int(m.group(2))) for m in LOC_RE.finditer(txt)]
+            own = (e.get('file_name'), e.get('line_no'))
+            # Stops in library frames of the SAME trace are printed by its Pdb without a prompt and pile up in front of the
+            # next prompt text; a stop in the script itself is always prompted, so a script location other than the own
+            # stop can only have been written by another trace
+            foreign = [l for l in locs if l != own and l[0] == own[0]]
+            if foreign:
+                bad.append(('prompt-text-of-other-trace', f'{where}: prompt text {txt!r} shows the stop {foreign[0]}, not the stop of this trace'))
+            if fresh.get(t, True):
+                if own not in locs:
+                    bad.append(('prompt-text-lacks-own-location', f'{where}: prompt text {txt!r} does not show the stop of its own frame'))
+                elif locs.count(own) > 1:
+                    bad.append(('prompt-text-duplicated', f'{where}: prompt text {txt!r} shows its stop more than once'))
+                lines = txt.split('\n')
+                at = max([i for i, l in enumerate(lines) if (m := LOC_RE.match(l)) and (m.group(1), int(m.group(2))) == own] or [0])
+                prev = lines[at - 1] if at > 0 else ''
+                for banner, kind in (('--Call--', 'call'), ('--Return--', 'return')):
+                    if (prev == banner) != (e.get('event') == kind) and own in locs:
+                        bad.append(('banner-misattributed', f'{where}: in the prompt text {txt!r} the own stop is '
+                                    f'{"preceded" if prev == banner else "not preceded"} by the banner {banner}'))
+            want = expect_echo.pop(t, None)
+            for mk in ECHO_RE.finditer(txt):
+                if mk.group(0) != want:
+                    bad.append(('command-output-of-other-trace', f'{where}: prompt text {txt!r} carries the output {mk.group(0)} of a command '
+                                f'addressed to (trace, prompt) {echo_owner.get(mk.group(0))}'))
+            if want is not None and want not in txt:
+                bad.append(('command-output-lost', f'{where}: the output {want} of the command this trace just executed is not in its prompt text {txt!r}'))
+            fresh[t] = True
+    return bad
+
+
 def oracle(job, res):
     """The property text on the real run.  Returns [(signature, what)]."""
-    bad = []
+    bad = text_oracle(res)
     if res.get('timeout') or res.get('error'):
         bad.append(('run-stuck', f'the run did not complete: {str(res.get("error"))[:200]}'))
     units = {int(k): v for k, v in job['units'].items()}
@@ -678,6 +843,9 @@ def _run(ctx, jobs) -> Corr:
                 k = f"{w['event']}:{'stalled' if w['stalled'] else 'others-finished'}"
                 sc[k] = sc.get(k, 0) + 1
     corr.extra['scenario_windows_by_event_of_the_withheld_prompt'] = sc
+    corr.extra['stops_gated_together_at_OnStartCmdloop'] = sum(((r.get('policy_summary') or {}).get('barrier') or {}).get('stops_gated_together', 0) for _, r in kept)
+    corr.extra['prompt_texts_checked'] = sum(1 for _, r in kept for e in r['events'] if e['type'] == 'OnStartPrompt')
+    corr.extra['printing_commands_checked'] = sum(1 for _, r in kept for c in r.get('sent', []) if 'ZZ' in str(c[2]))
     corr.extra['windows_with_progress_of_other_traces'] = n_progress
     corr.extra['prompts_of_other_traces_closed_while_a_prompt_was_withheld'] = closed_meanwhile
     return corr
@@ -687,7 +855,9 @@ def correspond(ctx) -> Corr:
     rng = ctx.rng
     n, nth, ntk = (90, 4, 6) if ctx.tier == 'quick' else (3000, 6, 10)
     nsc = 30 if ctx.tier == 'quick' else 600
-    jobs = load_corpus() + [gen_scenario_job(rng) for _ in range(nsc)] + [gen_job(rng, nth, ntk) for _ in range(n)]
+    nba = 16 if ctx.tier == 'quick' else 300
+    jobs = load_corpus() + [gen_barrier_job(rng) for _ in range(nba)] + [gen_scenario_job(rng) for _ in range(nsc)] \
+        + [gen_job(rng, nth, ntk) for _ in range(n)]
     return _run(ctx, jobs)
 
 
